@@ -93,12 +93,14 @@ fn main() {
             extra.push(("exhaustive_truncated".into(), trunc.to_string()));
             let exh_lines = out.lines;
             extra.push(("exhaustive_transitions".into(), exh_lines.to_string()));
-            let n_hist = if thorough { 400 } else { 40 };
+            // arena mode prints the whole arena twice per transition: keep arenas small there (disk)
+            let big = thorough && !arena_mode();
+            let n_hist = if big { 400 } else if thorough { 150 } else { 40 };
             for h in 0..n_hist {
                 let cfg = RandCfg {
-                    len: match h % 5 { 0 => 40, 1 => 120, 2 => 300, 3 => if thorough { 2000 } else { 600 }, _ => 80 },
-                    universe: match h % 6 { 0 => 8, 1 => 20, 2 => 60, 3 => 200, 4 => if thorough { 2000 } else { 500 }, _ => 12 },
-                    cap: [0usize, 1, 8, 9, 64, 1000][h % 6], variant: (h % 2) as u32, profile: (h % 4) as u32,
+                    len: match h % 5 { 0 => 40, 1 => 120, 2 => 300, 3 => if big { 2000 } else { 600 }, _ => 80 },
+                    universe: match h % 6 { 0 => 8, 1 => 20, 2 => 60, 3 => 200, 4 => if big { 2000 } else if arena_mode() { 120 } else { 500 }, _ => 12 },
+                    cap: [0usize, 1, 8, 9, 64, if arena_mode() { 16 } else { 1000 }][h % 6], variant: (h % 2) as u32, profile: (h % 4) as u32,
                 };
                 random_mapset(&mut out, suite, &mut rng, &cfg);
             }
@@ -111,12 +113,13 @@ fn main() {
             extra.push(("exhaustive_truncated".into(), trunc.to_string()));
             extra.push(("exhaustive_transitions".into(), out.lines.to_string()));
             arena_edge(&mut out, suite, &mut rng, if thorough { 40 } else { 8 });
-            let n_hist = if thorough { 600 } else { 60 };
+            let big = thorough && !arena_mode();
+            let n_hist = if big { 600 } else if thorough { 200 } else { 60 };
             for h in 0..n_hist {
                 let cfg = RandCfg {
-                    len: match h % 5 { 0 => 40, 1 => 120, 2 => 300, 3 => if thorough { 1500 } else { 500 }, _ => 80 },
-                    universe: match h % 6 { 0 => 6, 1 => 16, 2 => 50, 3 => 150, 4 => if thorough { 1500 } else { 400 }, _ => 10 },
-                    cap: [0usize, 1, 8, 9, 64, 1000][h % 6], variant: 0, profile: (h % 4) as u32,
+                    len: match h % 5 { 0 => 40, 1 => 120, 2 => 300, 3 => if big { 1500 } else { 500 }, _ => 80 },
+                    universe: match h % 6 { 0 => 6, 1 => 16, 2 => 50, 3 => 150, 4 => if big { 1500 } else if arena_mode() { 120 } else { 400 }, _ => 10 },
+                    cap: [0usize, 1, 8, 9, 64, if arena_mode() { 16 } else { 1000 }][h % 6], variant: 0, profile: (h % 4) as u32,
                 };
                 random_key(&mut out, suite, &mut rng, &cfg);
             }
